@@ -184,6 +184,12 @@ def _term(c, o):
             terms.append(("QWrite (WTxn [(%d, %s)])" if op.get("first_txn") else "QWrite (WBatch %d %s)") % (dsc, first))
             if bad:
                 terms.append("QRelated [] 0 false [] 0 [] %s" % BAD_PAGES)
+        elif k == "delete_ds":
+            terms.append("QHide %d" % ds_code(o, op["ds"]))
+            if bad:
+                terms.append("QRelated [] 0 false [] 0 [] %s" % BAD_PAGES)
+        elif k == "httpcont":
+            pass                                    # its pages belong to the httpq op of the same id
         elif k == "refkeys":
             ok = [x for x in (oo.get("outkeys") or []) if x[5] in user_ds]
             ik = [x for x in (oo.get("inkeys") or []) if x[5] in user_ds]
@@ -192,7 +198,20 @@ def _term(c, o):
                 terms.append("QKeys [{| r_src := -1; r_time := -1; r_pred := -1; r_tgt := -1; r_del := false; r_ds := -1 |}]")
             else:
                 terms.append("QKeys %s" % vlib.coq_list([key_term(x, tmap, user_ds) for x in ok]))
-        elif k == "related":
+        elif k in ("related", "jsquery", "httpq"):
+            oo = dict(oo)
+            if k == "jsquery":
+                op = dict(op, limits=[op.get("limit", 0)])
+                if not oo.get("rpages"):
+                    oo["rpages"] = [[]]             # PagedQuery does not call back for an empty page
+            if k == "httpq":
+                # POST /query, continued through its continuation tokens by the httpcont op of the same id (possibly later)
+                op = dict(op, limits=[op.get("limit", 0)])
+                more = [j for j in range(i + 1, len(c["ops"])) if c["ops"][j]["op"] == "httpcont" and c["ops"][j]["id"] == op["id"]]
+                mo = o["ops"][more[0]] if more and more[0] < len(o.get("ops", [])) else {"err": "no continuation op"}
+                if (mo.get("err") or mo.get("panic")) and not bad:
+                    bad = True
+                oo["rpages"] = list(oo.get("rpages") or []) + list(mo.get("rpages") or [])
             at = NOW
             if op.get("at"):
                 at = at_tick(ticks, op["at"])
@@ -249,6 +268,26 @@ def R(ds, first, second, txn=True):
 KEYS = {"op": "refkeys"}
 
 
+def DEL(ds):
+    return {"op": "delete_ds", "ds": ds}
+
+
+def jq(starts, pred="*", inverse=False, datasets=None, limit=0):
+    """the query run from inside a job's javascript transform: Query (limit 0) or PagedQuery(limit)"""
+    op = {"op": "jsquery", "starts": [U(s) for s in starts], "pred": pred if pred == "*" else U(pred), "inverse": inverse, "limit": limit}
+    if datasets:
+        op["datasets"] = list(datasets)
+    return op
+
+
+def hq(sid, starts, pred="*", inverse=False, datasets=None, limit=1):
+    """POST /query with a page limit, then all continuation requests: two ops sharing the session id"""
+    op = {"op": "httpq", "id": sid, "starts": [U(s) for s in starts], "pred": pred if pred == "*" else U(pred), "inverse": inverse, "limit": limit}
+    if datasets:
+        op["datasets"] = list(datasets)
+    return [op, {"op": "httpcont", "id": sid, "limit": limit}]
+
+
 def witness_cases():
     both = {"r1": "e2", "r2": "e2"}
     return [
@@ -271,6 +310,13 @@ def witness_cases():
         {"datasets": DSN, "ops": [B("a", ent("e1", {"r2": "e4"})), B("b", ent("e1", {"r2": "e4"})), B("a", ent("e1", {}, True)),
                                   B("b", ent("e1", {})), B("a", ent("e2", {"r1": "e4"})), KEYS,
                                   q(["e4"], inverse=True), q(["e1"]), q(["e4"], inverse=True, limits=[1])]},
+        # job entry point (contextual store) after a dataset delete without gc; HTTP paging with several continuation tokens
+        {"datasets": DSN, "ops": [B("a", ent("e1", {"r1": "e2"})), B("b", ent("e1", {"r1": "e3"}), ent("e4", {"r1": "e2"})), KEYS,
+                                  jq(["e1"]), jq(["e2"], inverse=True, limit=1)]
+                                 + hq("h1", ["e1", "e4", "e2"], limit=1) + hq("h2", ["e2", "e3"], inverse=True, limit=1)
+                                 + [DEL("b"), q(["e1"]), jq(["e1"]), jq(["e2"], inverse=True), jq(["e1"], datasets=["b"]), jq(["e1"], limit=1),
+                                    jq(["e2", "e3"], inverse=True), q(["e2"], inverse=True, datasets=["a", "b"])]
+                                 + hq("h3", ["e1", "e4", "e2"], limit=1)},
         # a transaction queued behind a batch of the same dataset: commit order must be time order (second, then first)
         {"datasets": DSN, "ops": [B("a", ent("e1", {"r1": "e2"})), R("a", [ent("e1", {"r1": "e4"})], [ent("e1", {"r1": "e3"})]), KEYS,
                                   q(["e1"]), q(["e3"], inverse=True), q(["e4"], inverse=True), q(["e1"], at=1, phase="pre"),
@@ -423,6 +469,26 @@ def gen_case(rng, nw, nq, full=False):
                     [rng.choice([1, 2, 3])] if rng.chance(3, 4) else [1, 2]))
         qs.append(q([rng.choice(IDS)], rng.choice(["*"] + PREDS), rng.chance(1, 2), rng.choice(SCOPES[:4]),
                     [rng.choice([0, 1, 2])], at=rng.choice(widx), exact=rng.chance(1, 2)))
+    # predicates that are certainly asserted (JS Query / PagedQuery swallow the "unknown predicate" refusal)
+    jpreds = ["*"] + sorted(set(p for w in writes for _, es in _sets(w) for e in es if not e.get("deleted") for p in e["refs"]))
+    # the other entry points: POST /query with continuation tokens (several start points), queries from inside a job transform
+    for n in range(2):
+        starts = list(IDS)
+        rng.shuffle(starts)
+        qs.extend(hq("h%d" % n, starts[:rng.range(2, 4)], rng.choice(["*"] + PREDS), rng.chance(1, 2), rng.choice(SCOPES), rng.choice([1, 1, 2])))
+    qs.append(jq([rng.choice(IDS)], rng.choice(jpreds), rng.chance(1, 2), rng.choice(SCOPES), rng.choice([0, 1, 2])))
+    if rng.chance(1, 2):
+        # delete one dataset (no garbage collection) and ask again, directly and through the job entry point
+        d = rng.choice(DSN)
+        qs.append(DEL(d))
+        for _ in range(4):
+            s_ = rng.choice(IDS)
+            p_, inv_, sc_ = rng.choice(jpreds), rng.chance(1, 2), rng.choice(SCOPES)
+            qs.append(jq([s_], p_, inv_, sc_, rng.choice([0, 0, 1])))
+            qs.append(q([s_], p_, inv_, sc_, [rng.choice([0, 1])]))
+        starts = list(IDS)
+        rng.shuffle(starts)
+        qs.append(jq(starts[:2], "*", rng.chance(1, 2), None, 0))
     return {"datasets": DSN, "ops": ops + qs}
 
 
@@ -500,14 +566,19 @@ def _still_unexplained(binp, case):
 def shrink(binp, c, o):
     """smallest sub-case that is still an unexplained spec failure: one query at a time, then drop trailing writes"""
     try:
-        writes = [op for op in c["ops"] if op["op"] != "related"]
-        for qop in [op for op in c["ops"] if op["op"] == "related"]:
-            cand = {"datasets": c["datasets"], "ops": writes + [qop]}
+        QK = ("related", "jsquery", "httpq", "httpcont")
+        writes = [op for op in c["ops"] if op["op"] not in QK]
+        for qop in [op for op in c["ops"] if op["op"] in QK and op["op"] != "httpcont"]:
             if qop.get("at"):
                 continue        # op indices of 'at' refer to the original case
+            qops = [qop] + [op for op in c["ops"] if op["op"] == "httpcont" and qop["op"] == "httpq" and op["id"] == qop["id"]]
+            # a query stays behind the dataset deletes that preceded it
+            before = c["ops"].index(qop)
+            keep = [op for op in writes if op["op"] != "delete_ds" or c["ops"].index(op) < before]
+            cand = {"datasets": c["datasets"], "ops": keep + qops}
             bad, o2 = _still_unexplained(binp, cand)
             if bad:
-                cand2 = {"datasets": c["datasets"], "ops": [op for op in writes if op["op"] != "refkeys"] + [qop]}
+                cand2 = {"datasets": c["datasets"], "ops": [op for op in keep if op["op"] != "refkeys"] + qops}
                 bad2, o3 = _still_unexplained(binp, cand2)
                 return (cand2, o3) if bad2 else (cand, o2)
     except Exception:
@@ -538,7 +609,13 @@ def classify(c, o):
 
 def tags(c, o):
     t = ["writes=%d" % len(_hist(c))]
-    nq = [op for op in c["ops"] if op["op"] == "related"]
+    nq = [op for op in c["ops"] if op["op"] in ("related", "jsquery", "httpq")]
+    if any(op["op"] == "delete_ds" for op in c["ops"]):
+        t.append("has-dataset-delete")
+    if any(op["op"] == "jsquery" for op in c["ops"]):
+        t.append("job-entry-point")
+    if any(op["op"] == "httpq" for op in c["ops"]):
+        t.append("http-paging")
     t.append("queries=%d" % (len(nq) // 10 * 10))
     if any(op["op"] == "txn" for op in c["ops"]):
         t.append("has-txn")
